@@ -466,7 +466,6 @@ CommentText(kw, items, v) ==
        [] syn = 3 -> "// " \o lst(IF kw = "" THEN "" ELSE " ", ",") \o (IF tr = 2 THEN " some reason" ELSE "")
 
 \* the structured content of every place used by the inline forms of a run
-InlineForms(ss, d) == SelectSeq(ss, LAMBDA s : Surf(s, d) = "inl")
 PlacesOf(ss) == UNION {{x[1] : x \in Places(ss[i])} : i \in 1..Len(ss)}
 ItemsAt(ss, pl) ==
   LET hit(s) == \E x \in Places(s) : x[1] = pl
@@ -576,7 +575,7 @@ RunMeanings(r) ==
 
 
 (***************************************************************************)
-(* Step "gen": the case space.                                                          *)
+(* Step "gen": the case space.                                              *)
 (***************************************************************************)
 FormList == TLCEval(SetToSeq(Forms))                 \* fixed order of the forms for this TLC run; picks refer to names
 NF == Len(FormList)
@@ -686,32 +685,32 @@ SurfacesAgree(c) == Cardinality({ObsKeys(c.runs[j]) : j \in 1..Len(c.runs)}) <= 
 (*      differ in kind (a block or a file-level comment whose comment       *)
 (*      stands on that line)                                                *)
 (***************************************************************************)
-\* alternative 1: pair every end with the latest begin before it that is still open, in file order
-AltBlocks(S, file) ==
-  LET bl   == {s \in S : s.k = "blk" /\ s.file = file}
-      begs == {[id |-> s.id, sym |-> s.sym, l |-> s.b] : s \in bl} \cup {[id |-> s.id, sym |-> s.sym, l |-> s.b] : s \in {x \in S : x.k = "beg" /\ x.file = file}}
-      ends == {[id |-> s.id, sym |-> s.sym, l |-> s.e] : s \in bl} \cup {[id |-> s.id, sym |-> s.sym, l |-> s.e] : s \in {x \in S : x.k = "end" /\ x.file = file}}
-      evs  == SortSeq(SetToSeq({[t |-> "b", x |-> b] : b \in begs} \cup {[t |-> "e", x |-> e] : e \in ends}),
-                      LAMBDA u, v : u.x.l < v.x.l \/ (u.x.l = v.x.l /\ u.t = "b" /\ v.t = "e"))
+\* alternative 1: pair every end with the latest begin before it that is still open, in file order (ss = the forms
+\* in the order in which their ids stand in a [list] comment)
+AltBlocks(ss, file) ==
+  LET idx  == {i \in 1..Len(ss) : ss[i].file = file /\ ss[i].k \in {"blk", "beg", "end"}}
+      evs  == SortSeq(SetToSeq({[t |-> "b", o |-> i, id |-> ss[i].id, sym |-> ss[i].sym, l |-> ss[i].b] : i \in {j \in idx : ss[j].k \in {"blk", "beg"}}}
+                               \cup {[t |-> "e", o |-> i, id |-> ss[i].id, sym |-> ss[i].sym, l |-> ss[i].e] : i \in {j \in idx : ss[j].k \in {"blk", "end"}}}),
+                      LAMBDA u, v : u.l < v.l \/ (u.l = v.l /\ u.o < v.o))
       RECURSIVE go(_, _, _)
       \* open: sequence of open begins (latest last); res: set of blocks [id, sym, b, e]
       go(i, open, res) ==
         IF i > Len(evs) THEN res
-        ELSE IF evs[i].t = "b" THEN go(i + 1, Append(open, evs[i].x), res)
+        ELSE IF evs[i].t = "b" THEN go(i + 1, Append(open, evs[i]), res)
         ELSE IF open = <<>> THEN go(i + 1, open, res)
         ELSE LET lastl == Last(open).l
-                 cand  == {k \in 1..Len(open) : open[k].l = lastl /\ open[k].sym = evs[i].x.sym}
+                 cand  == {k \in 1..Len(open) : open[k].l = lastl /\ open[k].sym = evs[i].sym}
              IN IF cand = {} THEN go(i + 1, open, res)
                 ELSE LET k == CHOOSE k \in cand : \A k2 \in cand : k <= k2
                      IN go(i + 1, [n \in 1..(Len(open) - 1) |-> IF n < k THEN open[n] ELSE open[n + 1]],
-                           res \cup {[id |-> evs[i].x.id, sym |-> evs[i].x.sym, b |-> open[k].l, e |-> evs[i].x.l]})
+                           res \cup {[id |-> evs[i].id, sym |-> evs[i].sym, b |-> open[k].l, e |-> evs[i].l]})
   IN go(1, <<>>, {})
 
-InAltBlock(S, f) ==
-  \E b \in AltBlocks(S, f.file) : Glob(b.id, f.id) /\ (b.sym = "" \/ \E y \in f.syms : Glob(b.sym, y)) /\ b.b <= f.line /\ f.line <= b.e
+InAltBlock(ss, f) ==
+  \E b \in AltBlocks(ss, f.file) : Glob(b.id, f.id) /\ (b.sym = "" \/ \E y \in f.syms : Glob(b.sym, y)) /\ b.b <= f.line /\ f.line <= b.e
 NonBlock(S) == {x \in S : x.k \notin {"blk", "beg", "end"}}
-AltHide1(F, S)   == {f \in F : (\E s \in NonBlock(S) : M3(s.n, f, {}) = "yes") \/ InAltBlock(S, f)}
-AltReport1(F, S) == {f \in F : (\A s \in NonBlock(S) : M3(s.n, f, {}) = "no") /\ ~InAltBlock(S, f)}
+AltHide1(F, ss)   == {f \in F : (\E s \in NonBlock(ToSet(ss)) : M3(s.n, f, {}) = "yes") \/ InAltBlock(ss, f)}
+AltReport1(F, ss) == {f \in F : (\A s \in NonBlock(ToSet(ss)) : M3(s.n, f, {}) = "no") /\ ~InAltBlock(ss, f)}
 
 \* alternative 2: of two suppressions with the same id, file, line and symbol - the line of a block being the line of
 \* its begin comment, the line of a file-level comment the line it stands on - only the one given first (command
@@ -738,7 +737,7 @@ Class(p, r, w) ==
       S2 == S \ Dropped(S)
       S3 == {s \in S : ~StarStarInside(s.id)}
   IN IF w.refused THEN (IF \E s \in S : HasQuestion(s.id) THEN "error-id-with-?-refused" ELSE "refused:" \o JoinNames(p.forms))
-     ELSE IF (\E s \in S : s.k = "blk") /\ r.run.inline /\ onlyInvalid /\ Consistent(o, AltHide1(F, S), AltReport1(F, S))
+     ELSE IF (\E s \in S : s.k = "blk") /\ r.run.inline /\ onlyInvalid /\ Consistent(o, AltHide1(F, FormSeq(p)), AltReport1(F, FormSeq(p)))
        THEN "end-closes-latest-begin"
      ELSE IF S2 # S /\ r.run.inline /\ w.extra = {} /\ Consistent(o, MustHide(F, S2), MustReport(F, S2))
        THEN "same-id-file-line-dropped"
